@@ -199,6 +199,48 @@ def r_arridx(prog, R):
                 else:
                     r.viol("fn=%s unclassified shift %s<-%s" % (f.name, L.show(dl), L.show(sl)), f.name, f.loc(c["ln"]), "a shift of array elements that is neither a compaction, an insertion gap nor a removal")
     r.require(n_shift >= 4, "fewer than 4 shift call sites found")
+    # an insertion that is not an append opens its gap on EVERY path (also on the one that first compacted the array)
+    ins = prog.func("ares_array_insert_at", file=ARR)
+    idxp = [p["n"] for p in ins.params if p["n"] in ("idx", "index")]
+    incs = [(b, i, el) for b, i, el in ins.elements() if el["k"] == "asg" and _fld(el["e"]["l"], "cnt") and el["e"]["op"] in ("++", "+=")]
+    if idxp and incs:
+        arrv = ins.params[1]["n"] if len(ins.params) > 1 else "arr"
+        k = "fn=ares_array_insert_at gap opened on every path unless appending"
+        tb, ti, _ = incs[0]
+
+        def is_gap(e2):
+            if e2["k"] != "call" or e2["e"].get("callee") not in phys:
+                return False
+            a = e2["e"].get("args", [])
+            return len(a) >= 3 and L.diff(a[1], a[2]) == {"": 1}
+        seen, work, bad = set(), [(ins.entry, [ins.entry])], None
+        while work and bad is None:
+            bid, trail = work.pop()
+            blk = ins.blocks[bid]
+            stop = False
+            for j, e2 in enumerate(blk.els):
+                if is_gap(e2):
+                    stop = True
+                    break
+                if bid == tb.id and j == ti:
+                    bad = trail
+                    stop = True
+                    break
+            if stop:
+                continue
+            br = ins.branch(blk)
+            for s2 in ins.succ(bid):
+                if br and br[1] != br[2]:
+                    pol = (br[1] == s2)
+                    if any(norm_cmp(c3, p3)[0] == "==" and norm_cmp(c3, p3)[2] is not None and {L.text(norm_cmp(c3, p3)[1]), L.text(norm_cmp(c3, p3)[2])} == {idxp[0], "%s->cnt" % arrv} for c3, p3 in atoms(br[0], pol)):
+                        continue          # appending: no gap needed
+                if s2 not in seen:
+                    seen.add(s2)
+                    work.append((s2, trail + [s2]))
+        if bad is not None:
+            r.viol(k, ins.name, ins.loc(incs[0][2]), "ares_array_insert_at can count a new member in the middle of the array on a path that never shifted the tail up (e.g. the path that first moved the data back to the start of the allocation): the member at the index is overwritten and a stale copy reappears at the end", trail=trail_lines(ins, bad))
+        else:
+            r.ok(k, ins.loc(incs[0][2]))
     # count bookkeeping: exactly one increment before an insertion reports success, exactly one decrement before a removal does
     for fname, ops, what in (("ares_array_insert_at", ("++",), "incremented"), ("ares_array_claim_at", ("--",), "decremented")):
         f = prog.func(fname, file=ARR)
